@@ -7,7 +7,7 @@
 From Coq Require Import List NArith Bool Arith.
 Import ListNotations.
 Require Import V.Regex V.Parse V.ParseProofs V.Parse2 V.PathSpec V.Splice V.Setters V.Push V.SetPath V.SetAuth V.SetScheme
-  V.Reference V.SetFragment V.C05Proofs.
+  V.Reference V.SetFragment V.C05Proofs V.Abnf V.Factor V.BridgePaths V.C02Bridge V.ValidSetInst.
 Local Open Scope nat_scope.
 
 Theorem C05_set_query : forall p q, wf_parts p -> (forall x, q = Some x -> none_of [HASH] x) ->
@@ -40,6 +40,18 @@ Theorem C05_set_scheme : forall p new, wf_parts p -> (forall s, new = Some s -> 
   wf_parts (with_scheme p new (scheme_fix_path p new)).
 Proof. intros p new W H. split; [now apply set_scheme_spec|]. split; [apply scheme_fix_permitted | now apply set_scheme_wf]. Qed.
 Print Assumptions C05_set_scheme.
+
+(* AT THE LEVEL OF THE RFC GRAMMAR (shown for set_path and set_authority, the two setters that rewrite the path; the
+   other three are in ValidSetInst.v): valid reference + valid value -> the result is compose of VALID parts,
+   hence a string of the reference language again *)
+Theorem C05_set_path_valid_URI : forall p v, valid_parts_U p -> L (ipath U) v ->
+  exists p', set_path (compose p) v = Some (compose p') /\ valid_parts_U p' /\ L (IRI_reference U U) (compose p').
+Proof. exact set_path_valid_U. Qed.
+Print Assumptions C05_set_path_valid_URI.
+Theorem C05_set_authority_valid_IRI : forall p new, valid_parts_I p -> oL (iauthority I) new ->
+  exists p', set_authority (compose p) new = Some (compose p') /\ valid_parts_I p' /\ L (IRI_reference I C02Bridge.P) (compose p').
+Proof. exact set_authority_valid_I. Qed.
+Print Assumptions C05_set_authority_valid_IRI.
 
 (* the splice underneath: replacing a range keeps everything before and after it (any tail length) *)
 Theorem C05_replace : forall A O T c, replace (A ++ O ++ T) (length A) (length A + length O) c = Some (A ++ c ++ T).
